@@ -24,20 +24,20 @@ import (
 
 type CrashSysWorld struct {
 	*SysWorld
-	Model     *Model
-	prog      *Program
-	stepStart []int
-	stepIdx   int
-	fired     map[int]bool
-	pending   *Fault
-	opsBase   int
-	restarts  int
-	faultsOff bool
-	variants  []*Model
-	leases    []string
-	tok       int
-	pubSeq    int
-	inOp      bool
+	Model        *Model
+	prog         *Program
+	stepStart    []int
+	stepIdx      int
+	fired        map[int]bool
+	pending      *Fault
+	opsBase      int
+	restarts     int
+	faultsOff    bool
+	variants     []*Model
+	leases       []string
+	tok          int
+	pubSeq       int
+	inOp         bool
 	restartAgain bool
 }
 
